@@ -31,6 +31,32 @@ def is_value_of_coupon(e):
     return sym.contains(e, lambda t: C.is_bin(t, "Shr") and C.const_of(t[3]) == 26)
 
 
+def check_set_probe(prog, res, rule):
+    """probe formula of the coupon hash set against the published one (evaluated for lg_size 2..=23)"""
+    n = 0
+    rnd = random.Random(26)
+    for f in C.fns_of(prog, "hll::hash_set::HashSet"):
+        for pl in C.probe_loops(prog, f):
+            st = pl["stride"]
+            lv = formula.leaves(st)
+            ck = [k for k in lv if k == "coupon"]
+            lk = [k for k in lv if k.endswith("lg_size")]
+            if not ck or not lk:
+                continue
+            n += 1
+            res.obligations += 1
+            envs = [{ck[0]: rnd.getrandbits(32), lk[0]: L} for L in range(2, 24) for _ in range(8)]
+            ok, cex, cnt, why = formula.equivalent(st, lambda env: ((env[ck[0]] & ((1 << 26) - 1)) >> env[lk[0]]) | 1, envs)
+            if ok:
+                res.discharged += 1
+            elif ok is False:
+                res.violate(rule, "%s|%s" % (rule, f.id), "probe stride of the coupon hash set in %s is %s, the published sequence uses ((coupon & (2^26-1)) >> lg_size) | 1: %s" % (
+                    f.id, show(st), cex), f.id, pl["span"])
+            else:
+                res.undecided += 1
+    return n
+
+
 def run(prog, ctx):
     res = Result("C02")
     upd = C.pub_fn(prog, "hll::sketch::HllSketch", "update")
@@ -281,6 +307,7 @@ def run(prog, ctx):
                 res.violate("C02.Q", "C02.Q|%s" % f.id, "probe loop in %s: stride %s is derived from a different table size than the mask %s" % (
                     f.id, show(pl["stride"]), show(pl["mask"])), f.id, pl["span"])
     res.rule("C02.Q", n_q, 3, "open-addressing probe loops in hll::")
+    res.rule("C02.Q2", check_set_probe(prog, res, "C02.Q2"), 1, "probe formula of the coupon hash set")
 
     # ---------------- C02.D : Mode dispatch completeness
     n_d = 0
